@@ -71,8 +71,17 @@ class Build:
         self.driver = os.path.join(d, "driver")
 
 def _coq_failed_file(log):
+    """the first file that failed to compile (with make -k there may be several: see coq_failed_all)"""
     m = re.findall(r'File "\./([^"]+)", line (\d+)', log)
-    return m[-1] if m else None
+    return m[0] if m else None
+
+def _coq_failed_all(log):
+    out, seen = [], set()
+    for f, l in re.findall(r'File "\./([^"]+)", line (\d+)', log):
+        if f not in seen:
+            seen.add(f)
+            out.append([f, l])
+    return out
 
 def ensure_build(need386=False, need_race=False, need_checkptr=False, verbose=True):
     os.makedirs(BUILD, exist_ok=True)
@@ -100,6 +109,11 @@ def ensure_build(need386=False, need_race=False, need_checkptr=False, verbose=Tr
                 rc3, out3 = sh([os.path.join(d, "srcfacts"), REPO, os.path.join(COQ, "Gen")], 120)
                 status["log"]["srcfacts"] = out3[-2000:]
                 status["srcfacts_ok"] = (rc3 == 0)
+            # C18: struct layouts of the compiled types (reflection hook) as a regenerated Coq table
+            try:
+                gen_layouts(d)
+            except Exception as e:  # noqa
+                status["log"]["layouts"] = "layouts failed: %r" % (e,)
             # C19: generator output vs checked-in file, as a Coq obligation
             try:
                 gen_genout(d)
@@ -108,11 +122,21 @@ def ensure_build(need386=False, need_race=False, need_checkptr=False, verbose=Tr
             # Coq: full .vo build (never -vos)
             if not os.path.exists(os.path.join(COQ, "Makefile")):
                 sh("coq_makefile -f _CoqProject -o Makefile", 60, COQ)
-            rc, out = sh("make -j16 2>&1", 3000, COQ)
+            rc, out = sh("make -k -j16 2>&1", 3000, COQ)
             status["coq_ok"] = (rc == 0)
             status["log"]["make"] = out[-6000:]
             if rc != 0:
                 status["coq_failed"] = _coq_failed_file(out)
+                status["coq_failed_all"] = _coq_failed_all(out)
+            # Print Assumptions of every property file, recorded once per build (Properties/Cnn.v only hold
+            # `Theorem .. exact ..` + `Print Assumptions`, so recompiling them is cheap)
+            adir = os.path.join(d, "assumptions")
+            os.makedirs(adir, exist_ok=True)
+            def _pa(f):
+                rc_, out_ = sh("coqc -Q . GoArt %s 2>&1" % f, 900, COQ)
+                open(os.path.join(adir, os.path.basename(f)[:-2] + ".txt"), "w").write("rc=%d\n%s" % (rc_, out_))
+            with ThreadPoolExecutor(max_workers=16) as ex:
+                list(ex.map(_pa, sorted(os.path.relpath(x, COQ) for x in glob.glob(os.path.join(COQ, "Properties", "C*.v")))))
             # extraction + driver (the model files compile even when a proof breaks)
             oc = os.path.join(ROOT, "ocaml")
             rc, out = sh("coqc -Q ../coq GoArt ../coq/Extract/Extract.v 2>&1 && ocamlfind ocamlopt -w -a model.mli model.ml driver.ml -o %s 2>&1"
@@ -138,6 +162,33 @@ def ensure_build(need386=False, need_race=False, need_checkptr=False, verbose=Tr
     finally:
         fcntl.flock(lock, fcntl.LOCK_UN)
         lock.close()
+
+def gen_layouts(bdir):
+    """C18: `harness layouts` (reflect on the compiled node / leaf types) -> Gen/Layouts.v.
+    On any failure the tables are empty (the obligations over them then fail, they are not vacuous)."""
+    types, fields = [], []
+    try:
+        rc, out = sh([os.path.join(bdir, "harness"), "layouts"], 60)
+        if rc == 0:
+            for l in out.splitlines():
+                m = re.match(r'^type (\S+) size (\d+) align (\d+)$', l)
+                if m:
+                    types.append('("%s", %s%%N, %s%%N)' % m.groups())
+                m = re.match(r'^field (\S+) (\S+) (\S+) (\d+) (\d+)$', l)
+                if m:
+                    fields.append('("%s", "%s", "%s", %s%%N, %s%%N)' % m.groups())
+    except Exception:  # noqa
+        types, fields = [], []
+    content = "\n".join([
+        '(* REGENERATED on every run from `harness layouts` (reflection on the compiled types) - do not edit. *)',
+        'From Coq Require Import List String NArith.', 'Import ListNotations.', 'Open Scope string_scope.', '',
+        '(* (type, size, alignment) *)',
+        'Definition layout_types : list (string * N * N) :=\n  [' + ";\n   ".join(types) + '].', '',
+        '(* (type, field, reflect kind of the field type, offset, size) *)',
+        'Definition layout_fields : list (string * string * string * N * N) :=\n  [' + ";\n   ".join(fields) + '].', ''])
+    path = os.path.join(COQ, "Gen", "Layouts.v")
+    if not os.path.exists(path) or open(path).read() != content:
+        open(path, "w").write(content)
 
 def gen_genout(bdir):
     """C19: run the repository's generator on a scratch copy outside /repo and /verif,
@@ -240,20 +291,23 @@ def proof_status(prop_file, build):
                 forbidden.append(f + ": " + tok.strip())
         obligations += n
         vo = p + "o"
-        if os.path.exists(vo) and os.path.getmtime(vo) >= os.path.getmtime(p) - 1 and build.status.get("coq_ok"):
+        if os.path.exists(vo) and os.path.getmtime(vo) >= os.path.getmtime(p) - 1:
             discharged += n - a
         else:
             stale.append(f)
-            if build.status.get("coq_ok"):
-                discharged += 0
         admitted += a
     return {"cone": cone, "obligations": obligations, "discharged": discharged, "admitted": admitted,
             "stale": stale, "forbidden": forbidden}
 
-def print_assumptions(prop_file):
-    """the Print Assumptions output recorded when Properties/Cnn.v was compiled"""
-    log = os.path.join(COQ, prop_file + ".assumptions")
-    rc, out = sh("coqc -Q . GoArt %s 2>&1" % prop_file, 600, COQ)
+def print_assumptions(prop_file, build=None):
+    """the Print Assumptions output recorded when the build compiled Properties/Cnn.v"""
+    if build is not None:
+        p = os.path.join(build.dir, "assumptions", os.path.basename(prop_file)[:-2] + ".txt")
+        if os.path.exists(p):
+            txt = open(p).read()
+            m = re.match(r'rc=(\d+)\n', txt)
+            return (int(m.group(1)) if m else 1), txt[m.end():] if m else txt
+    rc, out = sh("coqc -Q . GoArt %s 2>&1" % prop_file, 900, COQ)
     return rc, out
 
 # ---------------------------------------------------------------- running command files
@@ -261,14 +315,14 @@ def print_assumptions(prop_file):
 def read_cmds(path):
     return [l for l in open(path).read().split("\n") if l.strip() and not l.startswith("#")]
 
-def run_pair(build, cmds_path, opts=(), harness=None, want_model=True, timeout=900):
+def run_pair(build, cmds_path, opts=(), harness=None, want_model=True, timeout=900, coq_terms=False):
     """run implementation (+oracle, +side checks) and the extracted model on one command file"""
     base = cmds_path[:-5]
     h = harness or build.harness
     rc, out = sh([h, "exec", *opts, cmds_path, base + ".out", base + ".exp", base + ".side"], timeout)
     res = {"cmds": cmds_path, "impl_rc": rc, "impl_log": out[-2000:]}
     if want_model:
-        rc2, out2 = sh("ulimit -v 8000000; %s %s %s" % (build.driver, cmds_path, base + ".mod"), timeout)
+        rc2, out2 = sh("ulimit -v 8000000; %s %s %s %s" % (build.driver, cmds_path, base + ".mod", (base + "_cases.v") if coq_terms else ""), timeout)
         res["model_rc"] = rc2
         res["model_log"] = out2[-2000:]
     return res
